@@ -87,7 +87,26 @@ AllVectors ==
          Vec("OwnedEntrypointName", << L16(100), R(98, 100) >>, "reject", "entrypoint name of 100 bytes", 0),
          Vec("OwnedEntrypointName", << L16(0) >>, "accept", "canonical", ""),
          Vec("OwnedParameter", << L16(3), B(<<1, 2, 3>>) >>, "accept", "canonical", 0),
-         Vec("OwnedParameter", << L16(65535), B(<<1, 2, 3>>) >>, "reject", "hostile length", 0) }
+         Vec("OwnedParameter", << L16(65535), B(<<1, 2, 3>>) >>, "reject", "hostile length", 0),
+         Vec("OwnedParameter", << L16(0) >>, "accept", "canonical", 0),
+         \* attribute values: one length byte (at most 31) and that many bytes - also none at all
+         Vec("AttributeValue", << U8(0) >>, "accept", "canonical", 0),
+         Vec("AttributeValue", << U8(1), U8(7) >>, "accept", "canonical", 0),
+         Vec("AttributeValue", << U8(31), R(9, 31) >>, "accept", "canonical", 0),
+         Vec("AttributeValue", << U8(32), R(9, 32) >>, "reject", "attribute value of 32 bytes", 0),
+         Vec("AttributeValue", << U8(255), R(9, 31) >>, "reject", "attribute value of 255 bytes", 0),
+         Vec("AttributeValue", << U8(5), R(9, 4) >>, "reject", "truncated", 0),
+         \* policies: identity provider u32, created_at and valid_to u64, u16 count of (tag, attribute value)
+         Vec("OwnedPolicy", << L32(3), L64(1000), L64(2000), L16(0) >>, "accept", "canonical", 0),
+         Vec("OwnedPolicy", << L32(3), L64(1000), L64(2000), L16(1), U8(4), U8(0) >>, "accept", "canonical", 0),
+         Vec("OwnedPolicy", << L32(0), L64(0), L64hl(2147483647, 5), L16(2), U8(0), U8(2), B(<<68, 75>>), U8(255), U8(31), R(1, 31) >> , "accept", "canonical", 0),
+         Vec("OwnedPolicy", << L32(3), L64(1000), L64(2000), L16(2), U8(4), U8(0) >>, "reject", "fewer items than declared", 0),
+         Vec("OwnedPolicy", << L32(3), L64(1000), L64(2000), L16(1), U8(4), U8(32), R(1, 32) >>, "reject", "attribute value of 32 bytes", 0),
+         Vec("OwnedPolicy", << L32(3), L64(1000), L64(2000), L16(65535), U8(4), U8(0) >>, "reject", "hostile length", 0),
+         \* empty fixed-size arrays, strings and collections consume nothing / only their prefix
+         Vec("ArrayU8x0", << R(0, 0) >>, "accept", "canonical", 0),
+         Vec("String", << L32(0) >>, "accept", "canonical", ""),
+         Vec("VecU16", << L32(0) >>, "accept", "canonical", <<>>) }
 
 VARIABLE vec
 CInit == vec \in AllVectors
